@@ -306,6 +306,19 @@ u_cfg(uint64_t idx, void *arg)
         faults(&c, OP_RESET, 0, 0);
         faults(&c, OP_VALIDATE, 0, 0);
         faults(&c, OP_FETCH, 0, c.size);
+        /* the same for images that end in zero octets (padding, a blank tail) and for the all-zero image: what an
+         * additive checksum has summed up before a read fails already equals the stored checksum there */
+        {
+            static unsigned char keep[PC_MAX];
+            memcpy(keep, imgA, c.size);
+            memset(imgA + c.size / 2, 0, c.size - c.size / 2);
+            faults(&c, OP_VALIDATE, 0, 0);
+            faults(&c, OP_STORE_PART, 0, c.size / 2 ? c.size / 2 : 1);
+            memset(imgA, 0, c.size);
+            faults(&c, OP_VALIDATE, 0, 0);
+            memcpy(imgA, keep, c.size);
+            VH_COUNT("faults on images with a zero tail and on the all-zero image");
+        }
         /* partial windows */
         for (size_t off = 0; off < c.size; off++)
             for (size_t n = 1; off + n <= c.size; n++) {
